@@ -233,7 +233,8 @@ def check_case(case) -> Result:
         if not (0 < fq < m_i):
             res.bad("C09/scaled-pseudopressure-increasing", f"user diffusivity: scaled pseudopressure at p_f ({fq!r}) not below m_i ({m_i!r})")
     if variant == "simple":
-        if not np.array_equal(ms, p) or m_i != p_i:
+        # m_i is an interpolation of the identity at p_i: any interpolation routine may be an ulp or two off
+        if not np.array_equal(ms, p) or abs(m_i - p_i) > 1e-14 * abs(p_i):
             res.bad("C09/simple-wrapper", f"simple wrapper: m-scaled is not the pressure column or m_i={m_i!r} != p_i={p_i!r}")
     if variant == "standard":
         # the documented scaling: m-scaled = m * (c mu z / 2p)(p_i), the factor interpolated linearly in pressure
